@@ -28,7 +28,7 @@ META = dict(
          "Disconnect nothing is read or written and at most the message being handled is delivered; two correct peers can "
          "and (fair steps, no timer) do end connected.  Real peer pairs (net.Pipe, TCP) and real peers facing scripted raw "
          "remotes are recorded event by event, monitored for these properties and validated as traces of the spec.",
-    note="Bounded model (<= 2-3 messages in flight, <= 3-4 raw messages, 1-2 pings); the recorded runs use the verif-tag hook "
+    note="Bounded model (<= 2 messages in flight per direction, <= 3-4 raw messages, 1-2 pings); the recorded runs use the verif-tag hook "
          "p2p/peer/hook_x01_verif.go to shorten the negotiate / idle timers; the ping ticker is replaced by the harness "
          "queueing pings; framing errors other than a wrong checksum are C35's subject.",
     technique="TLA+ protocol model (TLC exhaustive + liveness) + trace validation of recorded real peer pairs and "
@@ -99,8 +99,12 @@ TRACE_INVS = ("INVARIANTS TypeOK HandshakeOrder StartedOnlyWithVersion NothingBe
 
 
 def violated(r):
-    m = re.search(r"Invariant (\w+) is violated", r["tail"])
-    return m.group(1) if m else None
+    with open(r["outfile"], errors="replace") as f:
+        for line in f:
+            m = re.match(r"Error: Invariant (\w+) is violated", line)
+            if m:
+                return m.group(1)
+    return None
 
 
 def split_runs(path):
@@ -157,26 +161,28 @@ def run(chk):
     files = {"HandshakeMC.tla": MC}
 
     # 1. exhaustive safety
-    big = dict(chan=3, ping=2, raw=4) if thorough else dict(chan=2, ping=1, raw=3)
+    big = dict(chan=2, ping=2, raw=4) if thorough else dict(chan=2, ping=1, raw=3)
     r = vf.tlc("Edge", "HandshakeMC", "mc.cfg", cfg_text=cfg(**big), files=files, workers=16, timeout=3000)
     vf.tlc_ok(r, "Handshake exhaustive")
     chk.add_tlc(r, "exhaustive Handshake.tla, all role pairs, in flight <= %(chan)d, pings <= %(ping)d, raw messages <= %(raw)d" % big)
-    r = vf.tlc("Edge", "HandshakeMC", "up.cfg", cfg_text=cfg(setups="MCHonest", upver=3, same="{FALSE}", chan=3, ping=2),
+    r = vf.tlc("Edge", "HandshakeMC", "up.cfg", cfg_text=cfg(setups="MCHonest", upver=3, same="{FALSE}", chan=3 if thorough else 2, ping=2 if thorough else 1),
                files=files, workers=8, timeout=1500)
     vf.tlc_ok(r, "Handshake exhaustive (version upgrade)")
     chk.add_tlc(r, "exhaustive, two correct peers, advertised version may be the upgraded one")
 
     # the properties have teeth: with a named deviation switched on TLC must refute them
-    for name, kw, inv in (("DevRejectNil", dict(dev1=True, setups="MCRawIn", same="{FALSE}"), "HandshakeOrder"),
-                          ("DevRejectNil", dict(dev1=True, setups="MCRawIn", same="{FALSE}"), "NothingBeforeVersion"),
-                          ("DevRejectNil", dict(dev1=True, setups="MCRawIn", same="{FALSE}"), "StartedOnlyWithVersion"),
-                          ("DevNoNonceReg", dict(dev2=True, setups="MCHonest"), "NoSelfConnection"),
-                          ("version upgrade", dict(setups="MCHonest", upver=3, same="{FALSE}"), "NegotiatedAgreeAlways")):
+    teeth = [("DevRejectNil", dict(dev1=True, setups="MCRawIn", same="{FALSE}"), "HandshakeOrder"),
+             ("DevNoNonceReg", dict(dev2=True, setups="MCHonest"), "NoSelfConnection"),
+             ("version upgrade", dict(setups="MCHonest", upver=3, same="{FALSE}"), "NegotiatedAgreeAlways")]
+    if thorough:
+        teeth += [("DevRejectNil", dict(dev1=True, setups="MCRawIn", same="{FALSE}"), "NothingBeforeVersion"),
+                  ("DevRejectNil", dict(dev1=True, setups="MCRawIn", same="{FALSE}"), "StartedOnlyWithVersion")]
+    for name, kw, inv in teeth:
         r = vf.tlc("Edge", "HandshakeMC", "dev.cfg", cfg_text=cfg(invs=inv, props="", **kw), files=files, workers=4, timeout=900)
         chk.add_tlc(r, "%s refutes %s" % (name, inv))
         chk.selftest("spec with %s violates %s" % (name, inv), violated(r) == inv)
     # non-vacuity: the handshake can complete, pings are answered ...
-    for inv in ("NeverBothEstablished", "NeverPong"):
+    for inv in (("NeverBothEstablished", "NeverPong") if thorough else ("NeverBothEstablished",)):
         r = vf.tlc("Edge", "HandshakeMC", "reach.cfg", cfg_text=cfg(setups="MCHonest", same="{FALSE}", invs=inv, props=""),
                    files=files, workers=4, timeout=900)
         chk.add_tlc(r, "reachability: %s refuted" % inv)
@@ -229,7 +235,7 @@ def run(chk):
             cands = [(i, j) for i, x in enumerate(rs) for j, e in enumerate(x) if pick(x, j, e)]
             i, j = cands[rng.randrange(len(cands))]
             change(rs[i], j)
-            r3, _ = validate(chk, rs[:i + 1], "bad-" + name)
+            r3, _ = validate(chk, rs[i:i + 1], "bad-" + re.sub(r"\W+", "-", name)[:24])
             chk.selftest("trace: " + name, r3["rc"] != 0)
 
         mutate(lambda x, j, e: e["ev"] == "Deliver" and e["k"] == "version",
@@ -238,10 +244,11 @@ def run(chk):
                lambda x, j: x[j].__setitem__("vk", False), "VersionKnown of one verack delivery set to false")
         mutate(lambda x, j, e: e["ev"] == "Read" and e["k"] == "verack",
                lambda x, j: x[j].__setitem__("k", "ping"), "kind of one Read event changed")
-        mutate(lambda x, j, e: e["ev"] == "Send" and e["k"] == "version" and x[0]["role" + e["p"]] != "raw",
-               lambda x, j: x.pop(j), "one Send(version) event dropped")
-        mutate(lambda x, j, e: e["ev"] == "Deliver" and e["k"] == "ping" and j + 1 < len(x),
-               lambda x, j: x.insert(j, dict(x[j])), "one ping delivered twice")
+        if thorough:
+            mutate(lambda x, j, e: e["ev"] == "Send" and e["k"] == "version" and x[0]["role" + e["p"]] != "raw",
+                   lambda x, j: x.pop(j), "one Send(version) event dropped")
+            mutate(lambda x, j, e: e["ev"] == "Deliver" and e["k"] == "ping" and j + 1 < len(x),
+                   lambda x, j: x.insert(j, dict(x[j])), "one ping delivered twice")
     recs, _ = vf.run_driver(binary, ["selftest"], timeout=600)
     for x in recs:
         if x.get("kind") == "selftest":
